@@ -1331,6 +1331,17 @@ where
                 #[cfg(mini_moka_verif)]
                 crate::verif::probe("loss.purged", self.build_hasher.hash_one(&**key));
                 Self::handle_remove_with_deques(deq_name, deq, write_order_deq, entry, counters);
+            } else if !self
+                .cache
+                .get(&**key)
+                .map(|e| std::ptr::eq(&**e.entry_info(), info))
+                .unwrap_or(false)
+            {
+                // The incarnation of this node has left the map and its removal op is
+                // still queued; it will be released when that op is applied. Leave the
+                // node at the LRU front (do not rotate it out of the way) and let a
+                // later run purge what is behind it.
+                break;
             } else if !self.try_skip_updated_entry(key, info, deq_name, deq, write_order_deq) {
                 break;
             }
